@@ -82,6 +82,7 @@ EndLine(e) == /\ phase = "stopped" /\ e.leftover = 0 /\ phase' = "ended"
 Step == /\ l <= Len(Ev(tid))
         /\ LET e == Ev(tid)[l] IN
              /\ e.t >= now /\ now' = e.t /\ OnTime(e.t)
+             /\ (e.ev \in {"put", "start", "end", "res"} => e.id \in Ids)    \* (a run that lost its argument)
              /\ \/ e.ev = "put" /\ Put(e)
                 \/ e.ev = "out" /\ Out(e)
                 \/ e.ev = "start" /\ Start(e)
